@@ -58,6 +58,11 @@ pub enum Corr {
     LastPost(usize),
     LastLenPre(usize),
     LastLenPost(usize),
+    /// query k listed twice, one copy carrying a wrong value (wrong copy first / second)
+    DupQueryWrongValue(usize, bool),
+    /// the configuration's layer count lowered by one, every vector left as the prover built it
+    /// (surplus trailing entries): the function then exceeds the degree bound the configuration states
+    NLayersMinusOne,
 }
 
 impl Corr {
@@ -79,6 +84,8 @@ impl Corr {
             Corr::LastPost(_) => "last-layer coefficient (after commit)",
             Corr::LastLenPre(_) => "last-layer length (before commit)",
             Corr::LastLenPost(_) => "last-layer length (after commit)",
+            Corr::DupQueryWrongValue(..) => "repeated query carrying a wrong value",
+            Corr::NLayersMinusOne => "layer count lowered, surplus entries kept",
         }
     }
 }
@@ -111,7 +118,11 @@ impl Instance {
     /// run the real verifier on this instance with one corruption applied
     pub fn run_real(&self, corr: &Corr, rng: &mut Rng) -> Outcome {
         let p = &self.params;
-        let cfg = fri_config(p);
+        let mut cfg = fri_config(p);
+        if let Corr::NLayersMinusOne = corr {
+            cfg.n_layers -= Felt::ONE;
+        }
+        let mut queries_f: Vec<Felt> = self.queries.iter().map(|q| Felt::from(*q)).collect();
         let mut roots = self.proof.roots.clone();
         let mut last = self.proof.last_layer();
         let mut values = self.proof.values_at(&self.queries);
@@ -170,6 +181,13 @@ impl Instance {
             Corr::RootPre(l) => roots[*l] += delta,
             Corr::LastPre(k) => last[*k] += delta,
             Corr::LastLenPre(n) => last.resize(*n, Felt::ZERO),
+            Corr::DupQueryWrongValue(k, wrong_first) => {
+                let (v, pt, q) = (values[*k], points[*k], queries_f[*k]);
+                let at = if *wrong_first { *k } else { *k + 1 };
+                values.insert(at, v + delta);
+                points.insert(at, pt);
+                queries_f.insert(at, q);
+            }
             _ => {}
         }
         let unsent = UnsentCommitment { inner_layers: roots, last_layer_coefficients: last };
@@ -189,7 +207,7 @@ impl Instance {
             Corr::LastLenPost(n) => com.last_layer_coefficients.resize(*n, Felt::ZERO),
             _ => {}
         }
-        let qf: Vec<Felt> = self.queries.iter().map(|q| Felt::from(*q)).collect();
+        let qf = queries_f;
         let r = catch(move || {
             fri_verify(&qf, com, Decommitment { values, points }, Witness { layers })
                 .map_err(|e| format!("{e:?}"))
@@ -232,9 +250,10 @@ pub fn gen_params(rng: &mut Rng, thorough: bool) -> FriParams {
         }
         // friendly count around the inner-layer heights
         let heights: Vec<u32> = (0..n_layers - 1).map(|i| m - steps[1..=i + 1].iter().sum::<u32>()).collect();
-        let n_friendly = match rng.below(5) {
+        let n_friendly = match rng.below(6) {
             0 => 0,
             1 => 1000,
+            5 => *rng.pick(&[1u64 << 32, 1u64 << 40, u64::MAX]),
             2 => *rng.pick(&heights) as u64,
             3 => *rng.pick(&heights) as u64 + 1,
             _ => rng.range(0, m as u64 + 2),
@@ -287,6 +306,16 @@ fn gen_poly(rng: &mut Rng, p: &FriParams, kind: u64) -> Vec<Felt> {
             let mut v = vec![Felt::ZERO; bound];
             v[bound - 1] = rng.felt() + Felt::ONE;
             v[0] = rng.felt();
+            v
+        }
+        6 | 7 => {
+            // divisible by x^(2^sum of steps): the honestly folded last layer has a zero constant term
+            // (kind 7: the single monomial of maximal degree)
+            let low = (1usize << p.sum_steps().min(40)).min(bound);
+            let mut v: Vec<Felt> = (0..bound).map(|i| if i < low || kind == 7 { Felt::ZERO } else { rng.felt() }).collect();
+            if kind == 7 {
+                v[bound - 1] = rng.felt() + Felt::ONE;
+            }
             v
         }
         _ => (0..bound).map(|_| rng.felt()).collect(),
@@ -501,7 +530,7 @@ pub fn run(args: &Args, sound: bool) -> Report {
     });
     let rep = par_run(n_threads(), n, |i, rep| {
         let mut rng = base.fork(&format!("inst{i}"));
-        let poly_kind = if sound { 3 } else { rng.below(6) };
+        let poly_kind = if sound { 3 } else { rng.below(8) };
         let inst = make_instance(&mut rng, thorough, poly_kind);
         let p = &inst.params;
         let key = format!("{:?}|{}|{}|{}|{}|{:?}", p.steps, p.lb, p.c, p.n_friendly, hex(&inst.seed), inst.queries);
@@ -519,7 +548,7 @@ pub fn run(args: &Args, sound: bool) -> Report {
         }
         rep.case(&key, p.steps.len() >= 2);
         rep.inc(&format!("layers.{}", p.steps.len()));
-        rep.inc(&format!("poly_kind.{}", ["zero", "constant", "sparse_max_degree", "random", "random", "random"][poly_kind as usize]));
+        rep.inc(&format!("poly_kind.{}", ["zero", "constant", "sparse_max_degree", "random", "random", "random", "divisible_by_x_to_the_fold", "max_degree_monomial"][poly_kind as usize]));
         rep.count("queries", inst.queries.len() as u64);
         if rep.samples.len() < 2 {
             rep.sample(inst.describe(&Corr::None));
@@ -554,6 +583,10 @@ pub fn run(args: &Args, sound: bool) -> Report {
             if inst.proof.input[inst.queries[k] as usize] != Felt::ZERO {
                 corrs.push(Corr::ZeroValuePlusLeaf(k));
             }
+        }
+        for k in [0, nq / 2, nq - 1] {
+            corrs.push(Corr::DupQueryWrongValue(k, false));
+            corrs.push(Corr::DupQueryWrongValue(k, true));
         }
         for (l, o) in openings.iter().enumerate() {
             for j in 0..o.leaves.len() {
@@ -738,6 +771,43 @@ pub fn run(args: &Args, sound: bool) -> Report {
                     inst.describe(&Corr::None),
                 ),
                 _ => rep.inc("high_degree_rejected"),
+            }
+        });
+        total.merge(rep);
+    }
+    if sound {
+        // ---- C07: a configuration that states fewer layers than the prover folded (surplus trailing
+        // entries in every vector): the function's degree is only below the LONGER fold's bound
+        let n_sur: u64 = if thorough { 300 } else { 40 };
+        let rep = par_run(n_threads(), n_sur, |i, rep| {
+            let mut rng = base.fork(&format!("surplus{i}"));
+            let mut params = gen_params(&mut rng, thorough);
+            while params.steps.len() < 3 {
+                params = gen_params(&mut rng, thorough);
+            }
+            let coef = gen_poly(&mut rng, &params, 3);
+            let seed = rng.felt();
+            let mut sponge = SpongeModel::new(seed);
+            let proof = FriProof::commit(params.clone(), &coef, &mut sponge);
+            let queries = gen_queries(&mut rng, &params);
+            let inst = Instance { params, seed, proof, queries };
+            if !matches!(inst.run_real(&Corr::None, &mut rng), Outcome::Accepted) {
+                rep.violation("C06|honest-rejected", "honest FRI instance rejected", inst.describe(&Corr::None));
+                return;
+            }
+            let c = Corr::NLayersMinusOne;
+            rep.case(&format!("surplus|{:?}|{}|{:?}", inst.params.steps, hex(&seed), inst.queries), true);
+            rep.inc(&format!("corrupt.{}", c.class()));
+            match inst.run_real(&c, &mut rng) {
+                Outcome::Accepted => rep.violation(
+                    &format!("C07|high-degree-accepted|{}", c.class()),
+                    "fri_verify accepted under a configuration that states one layer fewer than the prover folded (the function is not below the stated degree bound)",
+                    inst.describe(&c),
+                ),
+                _ => {
+                    rep.inc("corrupt_rejected");
+                    rep.inc("surplus_layers_rejected");
+                }
             }
         });
         total.merge(rep);
